@@ -30,7 +30,8 @@ SPEC = dict(
     probes=["caller-joined-while-dial-in-flight", "caller-joined-at-instant-of-a-failure", "caller-cancelled-while-waiting",
             "caller-left-with-cap-saturated", "backoff-refusal", "per-peer-cap-reached", "fd-cap-reached",
             "public-tcp-handshake-progress", "deadline-coincides-with-dial-end", "dial-started-with-dead-context",
-            "wrong-peer-answered", "transport-lied", "dns-resolved", "liveness-asserted",
+            "wrong-peer-answered", "transport-lied", "dns-resolved", "liveness-asserted", "answer-due-asserted",
+            "shared-success-asserted",
             "outcome-ok", "outcome-dial-error", "outcome-ctx-cancelled", "outcome-ctx-deadline"],
     real=["swarm: dial_sync, dial_worker, limiter, swarm_dial, dial_ranker, dial_error, back-off, conns — instrumented",
           "tcp transport dial path behind a recording wrapper, upgrader, insecure / noise, multistream, yamux — instrumented",
